@@ -17,12 +17,12 @@ type Out struct {
 }
 
 type Frame struct {
-	fn     *ssa.Function
-	regs   map[ssa.Value]Val
-	inLoop map[*ssa.BasicBlock]bool
-	depth  int
-	defers []ssa.CallCommon
-	unroll map[*ssa.BasicBlock]int
+	fn        *ssa.Function
+	regs      map[ssa.Value]Val
+	inLoop    map[*ssa.BasicBlock]bool
+	depth     int
+	defers    []ssa.CallCommon
+	unroll    map[*ssa.BasicBlock]int
 	loopFrame map[string]string
 	loopVars  map[string]Val // variables introduced by "loop N forkey"
 }
